@@ -1,6 +1,7 @@
 package checks
 
 import (
+	"bytes"
 	"crypto/ecdsa"
 	"crypto/x509"
 	"fmt"
@@ -209,6 +210,12 @@ func c10Enumerate(tier string, yield func(any)) {
 			}
 		}
 	}
+	// certificates that are re-issued to the very same bytes
+	for flags := 0; flags < 16; flags++ {
+		for clock := 0; clock < 3; clock++ {
+			yield(&c10Case{Kind: "deterministic", Flags: flags, Clock: clock})
+		}
+	}
 	// the last entity's artifact is a symbolic link to a key kept in another directory (native filesystem only)
 	for hier := 0; hier < 4; hier++ {
 		for flags := 0; flags < 16; flags++ {
@@ -274,6 +281,10 @@ func c10ToggleClass(c *c10Case) string {
 
 func c10Exec(x *engine.Ctx, cc any) {
 	c := cc.(*c10Case)
+	if c.Kind == "deterministic" {
+		c10Deterministic(x, c)
+		return
+	}
 	if c.Kind == "linked" {
 		c10Linked(x, c)
 		return
@@ -515,6 +526,47 @@ func c10Consent(x *engine.Ctx, c *c10Case) {
 	}
 }
 
+// c10Deterministic: a hierarchy whose certificates come out byte-identical when re-issued (RSA issuer, configured
+// serials, absolute validity, existing keys). The issuer is re-issued after an edit that keeps its name and key, its
+// subordinate with it - to the very same bytes. The run after that, with any flag set, must still be a no-op.
+func c10Deterministic(x *engine.Ctx, c *c10Case) {
+	root := &refcfg.CertCfg{Path: "root.yaml", Subject: "CN=Deterministic Root", KeyAlg: "RSA-2048", SigAlg: "RSAwithSHA256", Serial: refcfg.I64(1),
+		Validity: &refcfg.Validity{From: "2020-01-01", Until: "2040-01-01"}}
+	leaf := &refcfg.CertCfg{Path: "leaf.yaml", Subject: "CN=Deterministic Leaf", Issuer: "root", KeyAlg: "P-224", SigAlg: "RSAwithSHA256", Serial: refcfg.I64(2),
+		Validity: &refcfg.Validity{From: "2020-01-01", Until: "2030-01-01"}}
+	d := &Dir{Certs: []*refcfg.CertCfg{root, leaf}}
+	w := simfs.New(c.Clock)
+	d.Render(w)
+	w.Put("root.pem", FixtureKeyPEM("RSA-2048-0"))
+	w.Put("leaf.pem", FixtureKeyPEM("P-224-0"))
+	x.Nontrivial(fmt.Sprintf("deterministic %d %d", c.Flags, c.Clock))
+	if r := drive.Run(w, drive.Default, nil); !r.OK() {
+		x.Violation("C10/deterministic/first-run-failed", fmt.Sprintf("%v %s", r.Err(), r.Panic))
+		return
+	}
+	leaf1 := append([]byte{}, w.Files["leaf.pem"].Data...)
+	root.Exts = []refcfg.Ext{{Kind: refcfg.KOCSP}}
+	w.Put(root.Path, RenderCfg(root.Path, root.Tree()))
+	r2 := drive.Run(w, drive.Default, nil)
+	x.Transition(2)
+	if !r2.OK() || !r2.Planned("root") || !r2.Planned("leaf") {
+		x.Outcome("deterministic: the edit did not re-issue both (outside this case)")
+		return
+	}
+	same := bytes.Equal(leaf1, w.Files["leaf.pem"].Data)
+	before := w.Clone()
+	r3 := drive.Run(w, db.UpdateStrategy(c.Flags), nil)
+	x.Transition(1)
+	if !r3.OK() || len(r3.Plan) != 0 || len(w.Log) != 0 {
+		x.Violation("C10/rerun-not-noop/lib byte-identical-reissue", fmt.Sprintf("flags=%04b clock=%d: root edited (name and key kept) and re-issued together with its subordinate (subordinate's file byte-identical: %v); the run right after that plans %v, wrote %d files (%v)", c.Flags, c.Clock, same, r3.PlanAliases(), len(w.Log), r3.Err()))
+		return
+	}
+	if df := simfs.Diff(before, w); len(df) != 0 {
+		x.Violation("C10/rerun-changed-files/lib byte-identical-reissue", fmt.Sprintf("flags=%04b: %v", c.Flags, df))
+	}
+	x.Outcome(fmt.Sprintf("deterministic re-issue (byte-identical=%v): next run is a no-op", same))
+}
+
 // c10Linked: the last entity's artifact is a symbolic link to a key kept elsewhere (command line only).
 func c10Linked(x *engine.Ctx, c *c10Case) {
 	c.Clock = 0
@@ -559,7 +611,7 @@ func init() {
 	register(&engine.Check{
 		ID:          "C10",
 		Level:       "model_checking",
-		Rule:        "4 hierarchies (root; root+sub; 3-tier chain; root+2 subs; keys on P-224, brainpoolP256r1, P-384, brainpoolP384t1 by position) x toggle sets of size <=2 (thorough <=4 and all seven) over {profile, relative validity, absolute validity (current, not yet valid and expired-by-design periods by position), manipulations (version, signature value, key algorithm and key bits of the last entity), imported key, CSR-based leaf, nested directories + explicit aliases; plus a world where two configurations share an artifact file and worlds where every entity carries seven extensions with mixed-case names} x 16 flag sets without generate-all x 3 clock modes (tick per write / one tick per run / the run shares the tick of the last edit before it), 5 foreign files present: run, then run again with the same flags - from the fresh directory and (for the <=1-toggle worlds; all in thorough) after four histories: settled + edit of the root's subject, of the last entity's subject, of its extensions plus touching every config, deletion of its artifact. Second run: empty plan, nothing generated, empty write log, directory identical including mtimes. First run: changed paths = artifact paths of exactly the reported entities, no other path changed or created. The same run;run on the built binary in a native directory for every flag set on the <=1-toggle worlds and a diagonal of the rest; the binary on the 4 plain hierarchies x 16 flag sets with the last entity's artifact being a symbolic link (older than every file) to a key kept in another directory: run, then two more runs that must neither prompt nor change anything; consent: 9 stdin answers on 14 worlds with a pending replacement (the directory named as an absolute path; for y and n also relative, as ./dir/, as . from inside it, and through a symbolic link) (incl. replaced entities that hold a certificate but no private key: request-based, key stripped) (only `y` replaces, others leave the directory identical and exit 0, no prompt when nothing is replaced). states = worlds, transitions = runs, traces_validated = binary runs",
+		Rule:        "4 hierarchies (root; root+sub; 3-tier chain; root+2 subs; keys on P-224, brainpoolP256r1, P-384, brainpoolP384t1 by position) x toggle sets of size <=2 (thorough <=4 and all seven) over {profile, relative validity, absolute validity (current, not yet valid and expired-by-design periods by position), manipulations (version, signature value, key algorithm and key bits of the last entity), imported key, CSR-based leaf, nested directories + explicit aliases; plus a world where two configurations share an artifact file and worlds where every entity carries seven extensions with mixed-case names} x 16 flag sets without generate-all x 3 clock modes (tick per write / one tick per run / the run shares the tick of the last edit before it), 5 foreign files present: run, then run again with the same flags - from the fresh directory and (for the <=1-toggle worlds; all in thorough) after four histories: settled + edit of the root's subject, of the last entity's subject, of its extensions plus touching every config, deletion of its artifact. Second run: empty plan, nothing generated, empty write log, directory identical including mtimes. First run: changed paths = artifact paths of exactly the reported entities, no other path changed or created. The same run;run on the built binary in a native directory for every flag set on the <=1-toggle worlds and a diagonal of the rest; a root (RSA) and a subordinate with configured serials, absolute validity and existing keys: the root is edited (name and key kept), both are re-issued - the subordinate to the same bytes - and the next run under each of the 16 flag sets x 3 clock modes is a no-op; the binary on the 4 plain hierarchies x 16 flag sets with the last entity's artifact being a symbolic link (older than every file) to a key kept in another directory: run, then two more runs that must neither prompt nor change anything; consent: 9 stdin answers on 14 worlds with a pending replacement (the directory named as an absolute path; for y and n also relative, as ./dir/, as . from inside it, and through a symbolic link) (incl. replaced entities that hold a certificate but no private key: request-based, key stripped) (only `y` replaces, others leave the directory identical and exit 0, no prompt when nothing is replaced). states = worlds, transitions = runs, traces_validated = binary runs",
 		Bound:       map[string]string{"toggle set size": "quick<=2 thorough<=4 + all"},
 		Assumptions: []string{"answers `y` without newline and ` y ` are accepted by the code; the statement says `y`, so they are not demanded either way"},
 		Budget:      budgets(quickBudget, thoroughBudget),
